@@ -412,6 +412,11 @@ func (fr *Frame) callDynamic(fv Term, c *ssa.CallCommon, args []Term, st *State,
 	pos := site.Pos()
 	u.oblige(fr, "nil-deref", pos, fr.srcText(pos, "call of nil function"), st.pc, Neq(fv, NilLoc), false)
 	sig := c.Signature()
+	if key, ok := u.pureFnTerms[fv.S]; ok {
+		// declared "typeinv purefunc": injected callback without effect on emulator state (listed assumption)
+		u.typeInvUsed[key+"()"]++
+		return fr.freshResults(sig.Results(), st, "purefn"), st
+	}
 	var cands []*closureSite
 	for _, cs := range u.closureSites {
 		if types.Identical(cs.fn.Signature, sig) && u.canInline(cs.fn, true) {
